@@ -1161,6 +1161,8 @@ def check(rep, tier):
     resolverdep.obligations(rep, tier, 'C08')
     from vlib import walkerdep
     walkerdep.obligations(rep, tier, 'C08')
+    from vlib import userdep
+    userdep.obligations(rep, tier, 'C08')
     rep.dropped = 'check_use_limit and PlanJoinTablesQuery.plan read with ast.parse and executed symbolically; context/semi-join lemmas run the real planner on every shape of a finite case analysis'
     rep.assume('L1-L4 relational-algebra side conditions (see MANIFEST note)', 'end-to-end equivalence over table contents is NOT decided by this check',
                'the boolean-context case analysis is uniform in depth by the walker contract (C13): a comparison is visited regardless of its context')
